@@ -15,7 +15,7 @@ CLAIMS = {
               'cannot raise, every return is a {result,error} record, error is None or str() of a canonical singleton, '
               'error set => result None, result never an error object; closed 9-entry code table (enumerated by abstractly running from_message on an arbitrary argument), who-may-construct XLError; '
               'every reachable loop matches a termination idiom with the interval facts it needs. Not decided: cost of finite '
-              'big-integer work and regex backtracking.',
+              'big-integer work and regex backtracking. str() of an error object cannot raise (a __str__ of the error class returns text for every way the object can be built).',
               'path enumeration + catch-all/handler discipline + literal-table agreement + loop-variant idioms with guard-derived interval facts',
               'DESIGN.md 5 C01'),
     'C02': _c('Whole-package effect analysis from parse(): no write to module/class/instance state during evaluation (allow-list: '
@@ -26,18 +26,18 @@ CLAIMS = {
               'DESIGN.md 5 C02'),
     'C03': _c('Structural isolation rules: every yacc parse names a private cloned lexer, all instance state is born in __init__ '
               'from fresh containers, no class-level mutable state or mutable defaults, registry is write-once at import, no ply '
-              'module-global API. Necessary conditions for isolation/re-entrancy under every interleaving; races inside ply not decided.',
+              'module-global API, no lock of any kind held while host code runs. Necessary conditions for isolation/re-entrancy under every interleaving; races inside ply not decided.',
               'who-may-call / ownership rules over ast + call graph',
               'DESIGN.md 5 C03'),
     'C04': _c('The grammar as data: precedence table vs the stated order, the LALR automaton rebuilt from ast-extracted grammar '
               'and every (completed-operator-item, lookahead) cell of its action table checked against the oracle, production '
-              'shapes, operand roles decided by abstractly running each reduce action on symbolic operands, private token stream per parse, comparison nodes evaluate by the defined order (C07 kernel), lexeme/token/operator agreement, token order, generated-table agreement with the '
+              'shapes, operand roles decided by abstractly running each reduce action on symbolic operands, private token stream per parse, comparison nodes evaluate by the defined order (C07 kernel), every prefix production binds above the binary operators, no rewriting pass in front of the lexer and no path of parse() that answers without parsing, lexeme/token/operator agreement, token order, generated-table agreement with the '
               'checked-in parsetab; thorough: LR driver on all token strings to depth 3 vs precedence climbing. Exact arithmetic of the tree value not decided.',
               'LALR table inspection (ply as table generator on extracted data) + abstract interpretation of reduce actions + regex AST + literal-table agreement',
               'DESIGN.md 5 C04'),
     'C05': _c('Lexer/grammar structure: whitespace token first and discarding, no other token absorbs whitespace, separator '
               'actions have the slot shape on every alternative with argument values opaque (shape abstract interpretation), the three '
-              'separator families are one grammar, literal assembly, string strip, labels upper-cased. n% float exactness not decided.',
+              'separator families are one grammar, literal assembly, string strip, labels upper-cased, the formula text reaches the lexer as written, one invocation of the called function with every slot. n% float exactness not decided.',
               'regex-AST queries + list-shape abstract interpretation of reduce actions + grammar family isomorphism',
               'DESIGN.md 5 C05'),
     'C06': _c('Conversion table exhaustive and consistent (36 cells: converter matches operand type, + and * symmetric), text/zero-divisor '
@@ -58,7 +58,7 @@ CLAIMS = {
               'exception-class propagation over the call graph + path dominance + table/doc agreement + regex AST',
               'DESIGN.md 5 C09'),
     'C10': _c('Exactly one emit per reference callback on every normal path, one callback per reduction, every pair of label kinds forms a range production, cell/range payload origin, '
-              'setter keeps falsy values, default blank, private token stream per parse, exact label/index converters.',
+              'setter keeps falsy values (a listener's return value is not an answer), default blank, private token stream per parse, exact label/index converters.',
               'path enumeration (exactly-once) + origin tracking + type-tag evaluation of setter closures',
               'DESIGN.md 5 C10'),
     'C11': _c('Structural clauses only: error item becomes the result (full drain), whole *args through the flattener, delegation table '
@@ -67,7 +67,7 @@ CLAIMS = {
               'delegation-table agreement + role/dataflow rules + summary-list abstract interpretation',
               'DESIGN.md 5 C11'),
     'C12': _c('Predicate truth table over all type tags, derived predicates, parity complement over {0,1}, error conditions propagate, '
-              'truthiness and pairing of IF/IFS/SWITCH.',
+              'truthiness and pairing of IF/IFS/SWITCH (a blank result or default is an argument like any other).',
               'type-tag abstract interpretation + finite-quotient evaluation',
               'DESIGN.md 5 C12'),
     'C13': _c('Both date converters extracted as piecewise-affine maps with exact rationals: inverse, strictly monotone, Excel-1900 offset '
@@ -75,11 +75,11 @@ CLAIMS = {
               'piecewise-affine abstract interpretation + who-may-convert rule',
               'DESIGN.md 5 C13'),
     'C14': _c('Structural clauses only: accessor<->component, constructor roles, leap predicate over all residues mod 400, month-length '
-              'tables vs calendar, #NUM! guards, WEEKDAY numbering over 7x3, EDATE month arithmetic on 12x12 linear forms, DATEDIF y/m/ym component formulas, DAYS/DATEDIF(d) as the serial difference in order. Implementations through third-party date arithmetic NOT decided.',
+              'tables vs calendar, #NUM! guards, WEEKDAY numbering over 7x3, EDATE month arithmetic on 12x12 linear forms, DATEDIF y/m/ym component formulas, DAYS/DATEDIF(d) as the serial difference in order; dateutil.relativedelta modelled on date records. Other third-party date arithmetic NOT decided.',
               'finite-quotient evaluation + table agreement + guard dominance',
               'DESIGN.md 5 C14'),
     'C15': _c('Structural clauses only: no negative-zero slice, negative counts rejected, SUBSTITUTE unchanged-exit independent of the '
-              'replacement, a find() position is tested for not-found before it bounds a slice, joins over all flattened items in order. String-value algebra (idempotence etc.) NOT decided.',
+              'replacement, a find() position is tested for not-found before it bounds a slice, the k-th occurrence through find()/split() on instance numbers 1..3, tuple rows flattened like lists, joins over all flattened items in order. String-value algebra (idempotence etc.) NOT decided.',
               'guard dominance with interval facts + path-condition dependence + dataflow roles',
               'DESIGN.md 5 C15'),
     'C16': _c('Structural clauses only: delegation table name->math function, coercion+error guard dominates every use (sibling rule), '
@@ -88,23 +88,23 @@ CLAIMS = {
               'delegation-table agreement + guard dominance + polynomial normal form identity',
               'DESIGN.md 5 C16'),
     'C17': _c('Structural clauses only: documented domains enforced by dominating guards (interval facts), termination of loops, '
-              "the 40-bit two's-complement scheme as the piecewise-affine function HEX2DEC/DEC2HEX/DECIMAL compute over a symbolic integer, ROMAN/ARABIC numeral tables agree, one character per digit. "
+              "the 40-bit two's-complement scheme as the piecewise-affine function HEX2DEC/DEC2HEX/DECIMAL compute over a symbolic integer, ROMAN/ARABIC numeral tables agree, one character per digit, a table of scale factors equals 10**i on its whole index range. "
               'Rounding inequalities and round-trip values NOT decided.',
               'guard dominance with interval facts + piecewise-affine abstract interpretation + table agreement across siblings',
               'DESIGN.md 5 C17'),
     'C18': _c('Structural clauses only: no wrap-around indexing (index facts), out-of-range is an error, whole row/column on 0/omitted, '
-              'MATCH exact scan first-hit and #N/A exits, wildcard roles, MATCH +-1 on all 7 order types of x against three sorted symbolic items, text and fractional positions. Arrays longer than the instance shapes NOT decided.',
+              'MATCH exact scan first-hit and #N/A exits, wildcard roles, MATCH +-1 on all 7 order types of x against three sorted symbolic items, text and fractional positions, alternatives of CHOOSE that are not addressed play no part. Arrays longer than the instance shapes NOT decided.',
               'guard dominance with integer interval facts + path rules',
               'DESIGN.md 5 C18'),
     'C19': _c('Label regex language equals the label language (DFA over a 6-class alphabet with Python $ semantics), capture-group roles, '
-              'alphabet constant, exact integer arithmetic in the column converters, digit and carry of one step from the same dividend, row converters affine inverses, recomposition order, loop termination. Column converters mutually '
+              'alphabet constant, exact integer arithmetic in the column and row converters, digit and carry of one step from the same dividend, row converters affine inverses, recomposition order, loop termination. Column converters mutually '
               'inverse (bijective base 26) NOT decided.',
               'regex-AST to DFA language equality + affine forms + dataflow roles',
               'DESIGN.md 5 C19'),
     'C20': _c('Structural necessary conditions over all histories: delivery over an order-preserving snapshot to every listener with '
               '(*args, **ctx); on() appends unconditionally; once-wrapper unsubscribes before calling, is found by off(), registered via '
               'on(); off() filter equals the specification on all 8 atom valuations and keeps order; off(name) drops the key; storage keyed '
-              'by name only; no list resized inside a loop over itself. Full trace semantics of arbitrary interleavings NOT decided (model-checking family).',
+              'by name only; no list resized inside a loop over itself; off() edits the storage only after looking through the listeners; paired bookkeeping around the delivery restored on every exit. Full trace semantics of arbitrary interleavings NOT decided (model-checking family).',
               'ast pattern rules + path enumeration (ordering/exactly-once) + boolean truth-table evaluation of the filter',
               'DESIGN.md 5 C20'),
 }
